@@ -52,19 +52,19 @@ CHECKS["C05"] = {
     "engine": "symx+vloop+fakes",
     "technique": "symbolic execution (z3) of the enqueue/requeue/reject -> consume path of each broker with symbolic due time and clock (microseconds, every position in a clock second); in-memory polling on a virtual-time loop with symbolic real phases; RabbitMQ: the published expiration/routing",
     "text": "C05: delivered => now >= T - 1 ms; due for more than the latency bound => delivered; before that only the delayed category returns it.",
-    "note": "Redis and AMQP servers are in-process fakes (fakes/); RabbitMQ server-side expiry is not modelled (client obligation only); 'millisecond resolution' read as 1 ms tolerance",
+    "note": "Redis and AMQP servers are in-process fakes (fakes/); RabbitMQ server-side expiry is not modelled (client obligation only); 'millisecond resolution' read as 1 ms tolerance; on Redis the machine's UTC offset is a symbolic input (fixed offsets in quarter hours, no DST)",
 }
 CHECKS["C01"] = {
     "engine": "symx+vloop+fakes",
     "technique": "solver-enumerated bounded histories of broker-API calls (well-behavedness as the precondition) executed on the real in-memory, Redis and RabbitMQ broker classes (fake servers) and compared step by step with a reference lifecycle model; last call optionally cancelled after a solver-chosen number of loop steps",
     "text": "C01: after every call each message is in exactly the place the lifecycle model prescribes with its latest payload; a cancelled call leaves the broker as before or as after the complete call.",
-    "note": "selectors are discrete, so the solver contributes enumeration and pruning only; one queue/topic/priority; history length 4 (quick) / 5 (thorough); Redis and AMQP servers are stubs; queue_flush/delete and id reuse are outside the claim",
+    "note": "selectors are discrete, so the solver contributes enumeration and pruning only; one queue/topic/priority; history length 4 (quick) / 5 (thorough); Redis and AMQP servers are stubs; queue_flush/delete and id reuse are outside the claim; consumer-side dead-lettering of expired messages and the RabbitMQ worker stop are scenarios shared with C12 and C03",
 }
 CHECKS["C14"] = {
     "engine": "symx+vloop+fakes",
     "technique": "solver-enumerated call histories of two in-memory consumers, solver-enumerated server-side interleavings of two Redis clients' round trips (discrete scheduler), and two Worker.run() with symbolic real durations on one queue",
     "text": "C14: a message is delivered only if nobody holds it; a successful job is executed exactly once.",
-    "note": "RabbitMQ exclusivity is the server's and is not modelled; Redis interleaving granularity = one round trip (MULTI/EXEC atomic)",
+    "note": "RabbitMQ exclusivity is the server's and is not modelled; Redis interleaving granularity = one round trip (MULTI/EXEC atomic); the Redis finish() scenario is shared with C01",
 }
 CHECKS["C15"] = {
     "engine": "symx+vloop+fakes",
@@ -76,7 +76,7 @@ CHECKS["C07"] = {
     "engine": "symx+strx+fpx+fakes",
     "technique": "symbolic execution (z3) of every encode()/decode() pair with all leaves symbolic through a sentinel-JSON stub; the duration fields additionally on bit-precise z3 FloatingPoint/BitVec proxies (any float kernel other than the lemma's is decided by a time-capped query); cvc5 string/regex reasoning over the AST-interpreted Redis/RabbitMQ key builders and parsers with names drawn from the validators' own regexes (unbounded length); an IEEE-754 error-model lemma in linear arithmetic for the float seconds round trip; end-to-end Job.enqueue -> consume on the three brokers with symbolic settings",
     "text": "C07: decode(encode(x)) == x leaf by leaf at microsecond precision; key encodings parse back, are injective and the topic prefix filter is exact for all valid names; the consumer receives the key, payload and parameters that enqueue returned.",
-    "note": "argument VALUES are 9 concrete representatives (JSON text is a stub), so 'all argument values' is not claimed; float round trip of the unchanged kernel rests on lemma L-FP (error model; the bit-precise proof does not finish), other float kernels are decided bit-precisely or reported inconclusive; durations up to 100 julian years; isoformat round trip trusted; Redis/AMQP servers are fakes; cron, tz-aware datetimes, Config overrides outside the claim",
+    "note": "argument VALUES are 11 concrete representatives (JSON text is a stub), so 'all argument values' is not claimed; float round trip of the unchanged kernel rests on lemma L-FP (error model; the bit-precise proof does not finish), other float kernels are decided bit-precisely or reported inconclusive; durations up to 100 julian years; isoformat round trip trusted; Redis/AMQP servers are fakes; cron, tz-aware datetimes, Config overrides outside the claim",
 }
 CHECKS["C08"] = {
     "engine": "symx",
@@ -94,30 +94,30 @@ CHECKS["C16"] = {
     "engine": "symx",
     "technique": "solver-enumerated scripts of message-API calls on Message / MessageDependency for every category with symbolic retry counters, compared with a handle automaton; eager-response scripts inside a real actor_run with the store position oracle",
     "text": "C16: exactly one terminal action succeeds, refused calls raise and touch nothing, category and budget refusals, callbacks in registration order with the store at the latest set_* position, rest of the body not run.",
-    "note": "scripts of 3 (quick) / 4 (thorough) calls; recording in-memory broker",
+    "note": "scripts of 3 (quick) / 4 (thorough) calls; recording in-memory broker; Redis across deliveries; Queue.get_messages() on an explicit connection; the worker-level eager-answer scenario is shared with C02",
 }
 CHECKS["C11"] = {
     "engine": "symx+vloop",
     "technique": "solver-enumerated router configurations (registrations over names/queues with overrides, inclusion, later registrations) compared with a union/last-wins oracle; Worker.run() on a virtual-time loop over solver-enumerated mixes of own and foreign messages in a shared queue",
     "text": "C11: actors and topics_by_queue are exactly the union with the last registration winning and no aliasing; foreign messages are never executed, disposed or altered and stay available; own jobs run exactly their actor once.",
-    "note": "in-memory broker; Redis prefix filter exactness is proved under C07; RabbitMQ reject-requeue loop is server behaviour; discrete space (enumeration)",
+    "note": "in-memory broker, Redis and RabbitMQ on fake servers (RabbitMQ: round-robin dispatch; basic.qos per channel or per consumer as two server models); the testing plugin's marker handling through a stand-in for request.node; Redis prefix filter exactness is proved under C07; discrete space (enumeration)",
 }
 CHECKS["C17"] = {
     "engine": "symx+vloop+fakes",
     "technique": "solver-enumerated (operation x call style x subscriber kind x second connection) combinations executed on the real wrappers and compared differentially with the same operation without subscribers; nested and failure/cancel sequences",
     "text": "C17: one before and (on success) one after signal with by-name arguments/result to the owning connection only, nothing for nested operations, result/exception/state unchanged by subscribers.",
-    "note": "13 wrapped operations on in-memory brokers (RabbitMQ requeue on the fake channel for nesting); discrete space",
+    "note": "13 wrapped operations on in-memory, Redis and RabbitMQ brokers (fake servers); subscriber signatures with defaults, with plain required parameters, sync with a subset; discrete space",
 }
 CHECKS["C18"] = {
     "engine": "symx+vloop",
     "technique": "symbolic execution (z3): provider constants are symbolic integers, the actor's received keyword arguments are compared as SMT terms with an independent nested evaluation of the dependency graph; graph shape, sync/async flags, overrides and faults are solver-enumerated",
     "text": "C18: every dependency parameter equals its provider's value on its own resolved sub-dependencies for all provider constants; overrides replace everywhere; a provider failure follows the retry rules; unsupported declarations are rejected at declaration.",
-    "note": "six graph shapes (depth <= 3, fan-out <= 2, shared node), up to 2 overrides; thread pools inline",
+    "note": "six graph shapes (depth <= 3, fan-out <= 2, shared node), up to 2 overrides; thread pools inline (process pools: pickling emulated); nine special cases incl. seven provider exception types and awaitable values",
 }
 CHECKS["C20"] = {
     "engine": "strx+symx+vloop",
     "technique": "cvc5 string reasoning over the AST-interpreted request parser for every decoded request string (independent SMT re-encoding of the request line as oracle); Worker.run() with the health server on a virtual-time loop with symbolic failure/probe instants and a solver-enumerated set of junk byte strings through the real protocol objects",
     "text": "C20: 200/503 iff GET on the endpoint else 404, exactly one response, Content-Length right, reported status never written by a request; 503 exactly for connections made after a consumer failed; port open exactly while the worker runs (also during graceful finishing); junk never disturbs processing.",
-    "note": "real sockets replaced by a captured protocol factory; bytes.decode is a stub (raises or returns any string); the clause 'a well-formed request line is never dropped' is not decided symbolically (cvc5 answers unknown); it is exercised by concrete valid probes; junk inputs are 11 concrete byte strings (enumerated, not symbolic)",
+    "note": "real sockets replaced by a captured protocol factory; bytes.decode is a stub (raises or returns any string); the clause 'a well-formed request line is never dropped' is not decided symbolically (cvc5 answers unknown); it is exercised by concrete valid probes; junk inputs are 11 concrete byte strings (enumerated, not symbolic); RabbitMQ server-side consumer cancel on the fake server; `re` on symbolic text is unsupported (a handler using it makes the parse harnesses inconclusive)",
 }
 NOT_APPLICABLE = {}
